@@ -392,6 +392,8 @@ func (ds *Dataset) StoreEntitiesWithTransaction(
 				if IsEntityEqual(prevLocalJSON, jsonData, prevLocalEntity, e) {
 					isDifferentLocally = false
 				}
+				// an earlier element of this batch supersedes the stored version as the one this entity replaces
+				isDifferent = isDifferentLocally
 
 			} else {
 				isDifferentLocally = false
